@@ -401,6 +401,16 @@ class Parser(object):
             if relationship == 'encapsulation':
                 self._handle_component_ref(group_element, None)
 
+        # the encapsulation hierarchy must be a forest: no component may be its own ancestor
+        for name, component in self.components.items():
+            seen = {name}
+            parent = component.parent
+            while parent is not None:
+                if parent in seen:
+                    raise ValueError('Component %s encapsulates itself (cyclic encapsulation hierarchy)' % parent)
+                seen.add(parent)
+                parent = self.components[parent].parent
+
     def _handle_component_ref(self, parent_tag, parent_component):
         # we're going to process all the siblings at the end
         siblings = []
